@@ -48,6 +48,9 @@ CHECKS = {
  "C18": ("fault_enumeration", "E5", "exhaustive byte-level fault enumeration (every truncation offset, every single-byte substitution) and field-level structural fault enumeration of seed models through the real loader under recover()",
          "Around 30 seed models (the repository's samples incl. the zip and the invalid mnist file, plus generated models covering every initializer type/encoding and attribute kind) every prefix and every single-byte substitution (all 256 values for small seeds) is loaded with NewModelFromBytes under recover(), plus a structural fault menu on every initializer, node, attribute and value-info field; loading must return a model or an error, never panic. Every opset version in {-1,0..25,2^31,2^63-1} in six import arrangements must load iff the highest version is 13 and otherwise fail with ErrUnsupportedOpsetVersion; 120 unregistered operator names at each position of a 3-node graph must make Run fail with ErrUnsupportedOperator and no outputs.",
          "Trusted: recover()-based panic detection (a fatal runtime error such as stack exhaustion would abort the process and is reported as a harness failure). 'All byte strings' is covered as the 1-fault neighbourhood of ~30 seeds, not 256^n.", "DESIGN.md §3 C18"),
+ "C01": ("model_checking", "E2", "breadth-first enumeration of the program-construction transition system; every reachable program is executed by the real loader + Model.Run and compared with a reference graph evaluator",
+         "State = program prefix, transition = append one node instance (template x every wiring x output naming scheme). All programs of depth <= 2 over 16 templates (~186k programs incl. two nodes of the same operator type with different attributes, fan-out/fan-in, optional inputs absent by omission or by empty name, multi-output nodes with arbitrary / permuted / partly omitted output names, initializers that are also graph inputs) and depth-3 chains over a reduced alphabet are marshalled to bytes, loaded with NewModelFromBytes and Run with every intermediate value declared as graph output; each declared output must be present, non-nil and equal to the reference environment.",
+         "Trusted: the reference node evaluator (refeval.go over /verif/mc/ref). Depth and tensor sorts are bounded (shapes (2,2),(2,1,2),(1,1,2)); every trace is an implementation trace, so traces_validated_against_impl = programs executed.", "DESIGN.md §3 C01"),
 }
 NA_REASON = "check not built yet in this session (see DESIGN.md §7 order of construction); decidable by bounded exhaustive exploration, to be claimed once its explorer exists"
 def main():
